@@ -7,7 +7,7 @@ From Coq Require Import ZArith QArith List Bool.
 From Verif.Model Require Import Result Lexer Parser Eval EvalSpec ParserGrammar EvalTables.
 From Verif.Gen Require EvalTables.
 From Verif.Bridge Require Import EvalTables.
-From Verif.Proofs Require Import ParserRoundTrip EvalFlatten ParserSound ParserReject EvalFrontDoor.
+From Verif.Proofs Require Import ParserRoundTrip EvalFlatten ParserSound ParserReject EvalFrontDoor LexerLemmas LexerPrint RenderString.
 Import ListNotations.
 
 (* ---- the grammar assigns the documented structure ------------------------------------------------
@@ -40,6 +40,41 @@ Print Assumptions C03_eval_parse_render.
 Theorem C03_redundant_parentheses : forall E e, denote E (strip_parens e) = denote E e.
 Proof. exact denote_strip_parens. Qed.
 Print Assumptions C03_redundant_parentheses.
+
+(* ---- THE STRING-LEVEL STATEMENT ---------------------------------------------------------------------
+   For every derivation e of the documented grammar (numbers in any literal format the lexer produces, with
+   or without suffix; plain / subscripted / tensor-indexed / primed names; functions; arrays; + - * / ^ ||,
+   unary minus, parentheses), every scope E in which its names are defined, and EVERY rendering s of e --
+   the canonical tokens (only the parentheses the documented precedence and associativity require, plus any
+   redundant ones e carries), arbitrary TAB / LF / CR runs before, between and after the tokens, spaces
+   anywhere (also inside tokens) -- the front door evaluates s to exactly the documented value of e. *)
+Theorem C03_evaluator_rendering : forall E e seps s v,
+  wf_expr e = true -> Forall valid_token (render e) -> Forall (fun w => forallb is_ws w = true) seps ->
+  strip_spaces (py_strip s) = spaced seps (render e) ->
+  check_scope E (flatten e) = None ->
+  (evaluator E None (Some s) = OVal v <-> denote E e = Ok v).
+Proof. exact evaluator_rendering. Qed.
+Print Assumptions C03_evaluator_rendering.
+
+Theorem C03_parse_formula_rendering : forall t seps s,
+  wfb t = true -> Forall valid_token (print t) -> Forall (fun w => forallb is_ws w = true) seps ->
+  strip_spaces s = spaced seps (print t) -> parse_formula s = PTree t.
+Proof. exact parse_formula_rendering. Qed.
+Print Assumptions C03_parse_formula_rendering.
+
+(* tabs and line breaks between tokens: the lexer gives back the very tokens *)
+Theorem C03_tabs_between_tokens : forall ts seps,
+  Forall (fun w => forallb is_ws w = true) seps -> Forall valid_token ts -> sep_ok ts = true ->
+  lex (spaced seps ts) = Some ts.
+Proof. exact lex_spaced. Qed.
+Print Assumptions C03_tabs_between_tokens.
+
+(* a character outside the formula alphabet, anywhere in a string of any length: no tree *)
+Theorem C03_reject_foreign_char : forall s1 c s2,
+  lex_char_ok c = false -> c <> ch_space ->
+  parse_formula (s1 ++ c :: s2) = PUnparsable \/ exists e, parse_formula (s1 ++ c :: s2) = PUnbalanced e.
+Proof. exact parse_formula_foreign. Qed.
+Print Assumptions C03_reject_foreign_char.
 
 (* ---- the accepted token lists are exactly the prints of well-formed trees (no ambiguity) --------- *)
 Theorem C03_parse_tokens_iff : forall ts t, parse_tokens ts = Some t <-> (ts = print t /\ wfb t = true).
@@ -148,6 +183,12 @@ Print Assumptions C03_reject_empty_args.
 Theorem C03_reject_double_sign : forall ts, parse_tokens (TMinus :: TMinus :: ts) = None.
 Proof. exact reject_double_sign_leading. Qed.
 Print Assumptions C03_reject_double_sign.
+
+Theorem C03_reject_double_sign_on_exponent : forall x s n ts,
+  parse_tokens (TNum x s :: TCaret :: TMinus :: TMinus :: ts) = None
+  /\ parse_tokens (TName n :: TCaret :: TMinus :: TMinus :: ts) = None.
+Proof. exact (fun x s n ts => conj (reject_double_sign_exponent_num x s ts) (reject_double_sign_exponent_name n ts)). Qed.
+Print Assumptions C03_reject_double_sign_on_exponent.
 
 Theorem C03_reject_empty_input : parse_tokens [] = None.
 Proof. exact reject_empty. Qed.
@@ -303,3 +344,11 @@ Example C03_ex_division_by_zero : evaluator ex_env None (Some [49;47;40;120;45;5
 Proof. exact ex_division_by_zero. Qed.
 Example C03_ex_render : wf_expr ex_expr = true /\ print_tokens (render ex_expr) = [50;42;45;120;94;45;50;94;51;45;52;124;124;40;49;43;51;41]%Z.
 Proof. exact ex_render. Qed.
+
+(* the hypotheses of C03_evaluator_rendering are satisfiable with rich leaf texts:
+   " 2.5 E-1%<TAB>*<LF> -x_{ 1}'^2<CR> "  is a rendering of  2.5E-1% * -(x_{1}' ^ 2) *)
+Example C03_ex_rendering_hypotheses :
+  wf_expr ex_r_expr = true /\ Forall valid_token (render ex_r_expr)
+  /\ Forall (fun w => forallb is_ws w = true) ex_r_seps
+  /\ strip_spaces (py_strip ex_r_string) = spaced ex_r_seps (render ex_r_expr).
+Proof. exact ex_r_valid. Qed.
